@@ -1,8 +1,12 @@
 HOOK_COMMITS = ["62c23309"]
-FIX_COMMITS = ["f30b07ca", "4730a169"]
+FIX_COMMITS = ["f30b07ca", "4730a169", "b021ba71", "6b5e0bb5"]
 PENDING = "check not built yet (construction in progress, see DESIGN.md section 7); no claim is made"
 NOT_APPLICABLE = {("C%02d" % i): PENDING for i in range(1, 21)}
 CHECKS = {
+ "C07": dict(
+  technique="differential runtime monitoring: history+LoadDatabase vs fresh instance, all output channels of a probe battery compared byte for byte (1 case in 8 under ASan+UBSan)",
+  level="seeded histories from a grammar of 25 'dirtiers' (KNOBS, PRINT, SELECTED_OUTPUT/USER_PUNCH/USER_PRINT+PUT, RATES, CALCULATE_VALUES, TRANSPORT options incl. stagnant/multi_d/implicit/interlayer, ADVECTION, INCREMENTAL_REACTIONS, species/phase/master additions, PITZER/SIT/LLNL parameters, isotopes, all reactant kinds, DUMP/DELETE/COPY, other databases, setters) plus one of 8 failing calls; reload via LoadDatabase or LoadDatabaseString of 8 target databases; 9-11 probes (speciation, reaction, both integrators, transport, advection, mix/run_cells, memory/next numbers, dump, inverse, surface/exchange/gas)",
+  note="a leftover no probe observes is not a violation by the statement; A and B run in separate processes; 2 defects repaired by fix: commits"),
  "C05": dict(
   technique="runtime monitoring under ASan+UBSan: cross-view oracle over recorded table cells, string, line accessors, file bytes and three-binding cell/out-of-range probes",
   level="seeded selected-output shapes (0-4 blocks, option subsets, precision, USER_PUNCH with too few/many values, duplicate headings, inverse rows) x random per-number switches; every line of string/file is matched to a table row by heading-defined column mapping and each text cell must be a print-format rendering of the full-precision table value; C, C++, Value2 and Fortran-glue accessors compared cell by cell incl. out-of-range/unknown-number codes",
